@@ -8,6 +8,7 @@ package main
 //@ stable OAuthProxy.*
 //@ nonnil OAuthProxy.provider OAuthProxy.sessionStore OAuthProxy.Validator OAuthProxy.pageWriter OAuthProxy.appDirector
 //@ nonnil OAuthProxy.redirectValidator OAuthProxy.upstreamProxy OAuthProxy.CookieOptions OAuthProxy.serveMux OAuthProxy.redirectURL
+//@ nonnil OAuthProxy.trustedIPs
 
 // The e-mail validator configured at construction (validator.go: newValidatorImpl$1, verified nomod below).
 //@ func funcval Validator
@@ -302,6 +303,11 @@ package main
 //@ at call NewBasicAuthSessionLoader assert[basic-loader-uses-the-htpasswd-validator] arg(NewBasicAuthSessionLoader, 0) == validator
 //@ at call NewStoredSessionLoader assert[store-refresh-validate-from-this-proxy] arg(NewStoredSessionLoader, 0).SessionStore == sessionStore
 //@     && arg(NewStoredSessionLoader, 0).RefreshPeriod == opts.Cookie.Refresh
+//@ prop C19 C01
+//@ at call NewStoredSessionLoader assert[nonnil:loader-gets-a-store-a-refresher-and-a-validator] arg(NewStoredSessionLoader, 0).SessionStore != nil
+//@     && arg(NewStoredSessionLoader, 0).RefreshSession != nil && arg(NewStoredSessionLoader, 0).ValidateSession != nil
+//@ prop C19
+//@ scan[nonnil:proxy-allocated-by-its-constructor] alloc-of main.OAuthProxy main.NewOAuthProxy
 
 // every handler that consults getAuthenticatedSession is registered behind the session chain, and only there
 //@ prop C01
@@ -342,6 +348,18 @@ package main
 //@ at call AddIPNet assert[adds-the-parsed-configured-network-to-the-proxys-set] arg(AddIPNet, 0) == ret(NewNetSet)
 //@     && ret(ParseIPNet) != nil && arg(AddIPNet, 1) == deref(ret(ParseIPNet)) && arg(ParseIPNet, 0) == ipStr
 //@ at call buildRoutesAllowlist assert[all-configured-trusted-networks-were-added] nadded == len(opts.TrustedIPs)
+// the fields declared `nonnil` at the top of this file (request handling dereferences them unchecked) are established here
+//@ prop C19 C01
+//@ at call buildServeMux assert[trustedips-is-set-before-the-proxy-serves] recv(buildServeMux).trustedIPs != nil
+//@ at call buildServeMux assert[sessionstore-is-set-before-the-proxy-serves] recv(buildServeMux).sessionStore != nil
+//@ at call buildServeMux assert[provider-is-set-before-the-proxy-serves] recv(buildServeMux).provider != nil
+//@ at call buildServeMux assert[pagewriter-is-set-before-the-proxy-serves] recv(buildServeMux).pageWriter != nil
+//@ at call buildServeMux assert[appdirector-is-set-before-the-proxy-serves] recv(buildServeMux).appDirector != nil
+//@ at call buildServeMux assert[redirectvalidator-is-set-before-the-proxy-serves] recv(buildServeMux).redirectValidator != nil
+//@ at call buildServeMux assert[upstreamproxy-is-set-before-the-proxy-serves] recv(buildServeMux).upstreamProxy != nil
+//@ at call buildServeMux assert[cookieoptions-is-set-before-the-proxy-serves] recv(buildServeMux).CookieOptions != nil
+//@ at call buildServeMux assert[validator-is-set-before-the-proxy-serves] recv(buildServeMux).Validator != nil
+//@ prop C01 C15 C16 C17 C06 C07 C09
 //@ ensures[errors-produce-no-proxy] ret1 != nil ==> ret0 == nil
 //@ ensures[result-is-the-assembled-proxy] ret1 == nil ==> ret0 == recv(buildServeMux)
 
